@@ -39,4 +39,9 @@ def run(repo, tier) -> Result:
     from ..framework_rules import check_settings_kept
 
     check_settings_kept("C12", res, repo)
+    # ... and every timeframe manager a Hexital creates for a member gets the Hexital-level fill setting (a strategy built with
+    # timeframe_fill=True must not hold an unfilled manager)
+    from .c08 import check_binding
+
+    check_binding(res, repo, prop="C12")
     return res
